@@ -30,7 +30,7 @@ ReadReqs == {OpReq(o) : o \in {x \in Range(EmbOps) : IsReadOnlyEndpoint(x)}}
 AllReqs == WriteReqs \cup ReadReqs
 ConcPairs == (WriteReqs \X ReadReqs) \cup (IF ConcAll THEN AllReqs \X AllReqs ELSE {})
 
-Proc(r, w, stk) == [stage |-> "outer", rq |-> MkRq(r.m, SpellAll(BasePath(Tpl(r.t)), r.sps), w, r.h, stk), resp |-> NoResp]
+Proc(r, w, stk) == [stage |-> "outer", rq |-> MkRq(r.m, SpellAll(BasePath(Tpl(r.t)), r.sps), w, r.h, stk, FALSE), resp |-> NoResp]
 
 CInit ==
     /\ cw \in ConcW
@@ -67,8 +67,8 @@ CLiveInv ==
     /\ pb.stage = "done" => C18_Live(rb.m, rb.t, rb.sps, pb.resp.effect)
 \* what a request gets does not depend on what else is in flight
 CIndepInv ==
-    /\ pa.stage = "done" => ServeReq(ra, cw, cstack) = {pa.resp}
-    /\ pb.stage = "done" => ServeReq(rb, cw, cstack) = {pb.resp}
+    /\ pa.stage = "done" => ServeReq(ra, cw, cstack, FALSE) = {pa.resp}
+    /\ pb.stage = "done" => ServeReq(rb, cw, cstack, FALSE) = {pb.resp}
 
 WithTarget(r) == [m |-> r.m, t |-> r.t, sps |-> r.sps, h |-> r.h, target |-> Target(SpellAll(BasePath(Tpl(r.t)), r.sps))]
 CEmitInv ==
